@@ -18,6 +18,12 @@ CLAIMED = {
     "C07": ("movesim", "6.3",
             "Seeded histories of instruction moves, block moves and lookups with valid/boundary/invalid indices; after every event the real code is compared with a sequence model (admission iff within reported bounds, rejection changes nothing, rotation, address tiling, lookups, dependency order via the VerifDeps hook, block moves permute only).",
             "Trusted: sequence model; dependency edges read through the verif hook."),
+    "C20": ("loadsim", "6.4",
+            "Simulated disk under the ELF loader: seeded well-formed images (ELF32/64, LE/BE, all types, odd section/segment layouts) with injected storage faults (truncation, torn/lost writes, bit flips) and read faults (EIO, short reads through the ReaderAt hook); the loader's answer is judged against an independent ELF reader on the bytes delivered; must-reject cases must be rejected; no panic.",
+            "Trusted: elfref reader/builder. Images needing 64 MiB..2^48 B of zero padding are not loaded in-process."),
+    "C26": ("loadsim", "6.4",
+            "Same disk model plus path and argument faults, run through an in-process replica of main.run() (recover as crash detector) and, for 1 run in 12, the real mltwist binary as a child on a pty under ulimit -v: outcome must be error exit with 'mltwist: ' message or UI entered and quit works; never a crash.",
+            "Trusted: the replica of main.go wiring (cross-checked by the child runs). Child runs use real OS processes; their outcome depends only on the file and arguments."),
     "C14": ("memsim", "6.1",
             "Seeded histories of overlapping Store/Load/Missing/Blocks on memory.Sparse with constant and symbolic values; after every event the object is compared with a byte-addressed reference model under 6 valuations, plus an aliasing snapshot oracle. Exploration: sampled, not exhaustive.",
             "Trusted: bytemem + refeval reference (written from pkg/expr docs). Ranges non-wrapping, widths 1..255."),
